@@ -45,13 +45,17 @@ def nl_cases(draw):
         for op in ops:
             if op[0] == 'find' and draw(st.booleans()):
                 op[1]['numa'] = True
+    idx = list(range(n))
+    if draw(st.integers(0, 3)) == 0:
+        k = draw(st.integers(0, n - 1))              # one allocated node (#k of n+1) is not offered
+        idx = [i for i in range(n + 1) if i != k]
     via_pilot = False
     if not numa and draw(st.booleans()):
         via_pilot = True
         for _ in range(draw(st.integers(1, 3))):
             ops.insert(draw(st.integers(1, len(ops))), ['pilot_update'])
     return {'kind': 'nodelist', 'n': n, 'c': c, 'g': g, 'lfs': lfs, 'mem': mem,
-            'bc': bc, 'bg': bg, 'ops': ops, 'numa': numa, 'via_pilot': via_pilot}
+            'bc': bc, 'bg': bg, 'ops': ops, 'numa': numa, 'via_pilot': via_pilot, 'idx': idx}
 
 
 @st.composite
@@ -91,10 +95,18 @@ def run_nodelist(case):
     bg = set(i % g for i in case.get('bg', [])) if g else set()
     if len(bc) >= c:
         bc = set(list(bc)[:c - 1])
+    # node indexes as the resource manager assigned them; the list the pilot offers may have lost
+    # nodes (an allocated node which does not answer is dropped, agent nodes are taken out)
+    idx = [int(k) for k in (case.get('idx') or [])][:n]
+    if len(set(idx)) != n or any(k < 0 for k in idx):
+        idx = list(range(n))
+    if idx != list(range(n)):
+        stats['index_gaps'] = 1
+    name_of = {k: 'n%02d' % k for k in idx}
     raw = [{'name': 'n%02d' % i, 'index': i,
             'cores': [rpc.DOWN if k in bc else rpc.FREE for k in range(c)],
             'gpus': [rpc.DOWN if k in bg else rpc.FREE for k in range(g)],
-            'lfs': case['lfs'], 'mem': case['mem']} for i in range(n)]
+            'lfs': case['lfs'], 'mem': case['mem']} for i in idx]
     if bc or bg:
         stats['blocked'] = 1
     if case.get('numa'):
@@ -270,8 +282,8 @@ def run_nodelist(case):
             if len(slots) != ns:
                 P.append(('C02', 'nodelist:slot_count', 'asked %d got %d' % (ns, len(slots))))
             for s in slots:
-                if not (0 <= s.node_index < n) or \
-                        (nl.nodes[s.node_index].name != s.node_name and not numa_req):
+                if s.node_index not in name_of or \
+                        (name_of[s.node_index] != s.node_name and not numa_req):
                     P.append(('C02', 'nodelist:slot_node_invalid', str(s)))
                 if numa_req and (len(ci) if False else True):
                     half = c // 2
